@@ -321,7 +321,12 @@ class Engine:
       if isinstance(o, HSet):
         if o.items is not None:
           return len(o.items) > 0
-        raise Unsupported("truthiness of symbolic set")
+        # non-emptiness of a symbolic int set: a fresh boolean tied to the membership predicate by a witness
+        b = z3.Bool(V.fresh_name("set_nonempty"))
+        w = z3.Int(V.fresh_name("set_witness"))
+        x = z3.Int(V.fresh_name("sx"))
+        st.assume(z3.Implies(b, o.mem(w)), z3.Implies(z3.Not(b), z3.ForAll([x], z3.Not(o.mem(x)))))
+        return b
       if isinstance(o, HRecList):
         return to_z3(o.length) > 0
       return True
@@ -683,6 +688,9 @@ class Engine:
     raise Unsupported("`is` on non-None operands")
 
   def contains(self, st, cont, item, node):
+    if isinstance(cont, Opt):
+      self.implicit(st, "TypeError", self.not_(cont.isnone), node, "argument of type 'NoneType' is not iterable")
+      cont = cont.val
     if isinstance(cont, tuple):
       return self.or_(*[self.eq(st, item, c) for c in cont])
     if isinstance(cont, str) and isinstance(item, str):
@@ -1330,7 +1338,10 @@ class Engine:
       return st.alloc(HList(items=None, length=n, elem_t=t[1], rep=V.fresh_rep(t[1], name)))
     if isinstance(t, tuple) and t[0] == "dict":
       return st.alloc(self.th.fresh_dict(self, st, t, name))
-    if isinstance(t, tuple) and t[0] == "opt" and isinstance(t[1], tuple) and t[1][0] in ("list", "dict"):
+    if isinstance(t, tuple) and t[0] == "intset":
+      f = z3.Function(V.fresh_name(name + ".mem"), z3.IntSort(), z3.BoolSort())
+      return st.alloc(HSet(items=None, mem=lambda item, f=f: f(to_z3(self.need_int(st, item)))))
+    if isinstance(t, tuple) and t[0] == "opt" and isinstance(t[1], tuple) and t[1][0] in ("list", "dict", "intset"):
       return Opt(z3.Bool(V.fresh_name(name + ".isnone")), self.fresh_heap(st, t[1], name))
     if isinstance(t, tuple) and t[0] == "tuple" and any(self._needs_heap(x) for x in t[1]):
       return tuple(self.fresh_heap(st, ti, f"{name}.{i}") for i, ti in enumerate(t[1]))
@@ -1372,9 +1383,9 @@ class Engine:
 
   def coerce_heap(self, st, t, v):
     t = parse_type(t)
-    if isinstance(t, tuple) and t[0] in ("list", "dict", "rec", "ref", "elem", "obj"):
+    if isinstance(t, tuple) and t[0] in ("list", "dict", "rec", "ref", "elem", "obj", "intset"):
       return v
-    if isinstance(t, tuple) and t[0] == "opt" and isinstance(t[1], tuple) and t[1][0] in ("elem", "rec", "list"):
+    if isinstance(t, tuple) and t[0] == "opt" and isinstance(t[1], tuple) and t[1][0] in ("elem", "rec", "list", "intset"):
       if v is None:
         return Opt(True, None)
       return v if isinstance(v, Opt) else Opt(False, v)
